@@ -317,6 +317,20 @@ func cmdCheck(args []string) int {
 		fmt.Printf("fvc: no obligations generated for %s\n", *prop)
 		return 2
 	}
+	// bounded stand-ins for functions outside the verifier's reach (labelled bounded; never counted as proved)
+	bounded, bfails := runBounded(*repo, *verif, *prop, *tier)
+	for _, b := range bounded {
+		if b.Passed {
+			continue
+		}
+		violations++
+		path := filepath.Join(replayDir, "bounded_"+sanitize(b.Name)+".json")
+		data, _ := json.MarshalIndent(map[string]interface{}{"property": *prop, "obligation": "bounded:" + b.Name, "kind": "bounded stand-in (real code, go test -overlay)",
+			"what": b.Function, "bound": b.Bound, "cmd": b.Cmd, "source": filepath.Join(*verif, "bounded", *prop, b.Name+"_test.go"), "output": b.OutputEnd, "replayed": true}, "", " ")
+		os.WriteFile(path, data, 0o644)
+		fmt.Printf("VIOLATION property=%s replay=%s obligation=bounded:%s (failing input printed by the real code; see output)\n", *prop, path, b.Name)
+	}
+	_ = bfails
 	uniq := func(xs []string) []string {
 		m := map[string]bool{}
 		var out []string
@@ -360,6 +374,7 @@ func cmdCheck(args []string) int {
 			"failed_obligations":       failedNames,
 			"known_findings_seen":      keysOf(knownSeen),
 			"samples":                  samples,
+			"bounded_stand_ins":        bounded,
 		}}
 	os.MkdirAll(filepath.Join(*verif, "evidence"), 0o755)
 	data, _ := json.MarshalIndent(ev, "", " ")
